@@ -19,15 +19,18 @@ package xpath
 // write to one of its fields (inv-preserved), assumed wherever a pointer of
 // the type is read.
 
-//@ inv ancestorQuery: self.Input != nil && self.Predicate != nil
-//@ inv attributeQuery: self.Input != nil && self.Predicate != nil
-//@ inv childQuery: self.Input != nil && self.Predicate != nil
-//@ inv cachedChildQuery: self.Input != nil && self.Predicate != nil
+// The pruned descendant walk (descendantOverDescendantQuery: it does not descend below a match) is only
+// sound directly below another descendant step, which visits those descendants anyway: no other step
+// type ever has it as its input (C01).
+//@ inv ancestorQuery: self.Input != nil && self.Predicate != nil && !is(self.Input, *descendantOverDescendantQuery)
+//@ inv attributeQuery: self.Input != nil && self.Predicate != nil && !is(self.Input, *descendantOverDescendantQuery)
+//@ inv childQuery: self.Input != nil && self.Predicate != nil && !is(self.Input, *descendantOverDescendantQuery)
+//@ inv cachedChildQuery: self.Input != nil && self.Predicate != nil && !is(self.Input, *descendantOverDescendantQuery)
 //@ inv descendantQuery: self.Input != nil && self.Predicate != nil && self.level >= 0
-//@ inv followingQuery: self.Input != nil && self.Predicate != nil
-//@ inv precedingQuery: self.Input != nil && self.Predicate != nil
-//@ inv parentQuery: self.Input != nil && self.Predicate != nil
-//@ inv selfQuery: self.Input != nil && self.Predicate != nil
+//@ inv followingQuery: self.Input != nil && self.Predicate != nil && !is(self.Input, *descendantOverDescendantQuery)
+//@ inv precedingQuery: self.Input != nil && self.Predicate != nil && !is(self.Input, *descendantOverDescendantQuery)
+//@ inv parentQuery: self.Input != nil && self.Predicate != nil && !is(self.Input, *descendantOverDescendantQuery)
+//@ inv selfQuery: self.Input != nil && self.Predicate != nil && !is(self.Input, *descendantOverDescendantQuery)
 //@ inv descendantOverDescendantQuery: self.Input != nil && self.Predicate != nil && (self.level != 0 ==> self.currentNode != nil) && self.level >= 0
 //@ inv filterQuery: self.Input != nil && self.Predicate != nil
 //@ inv functionQuery: self.Func != nil
@@ -1267,32 +1270,41 @@ package xpath
 //@   modifies nothing
 //@   ensures-assumed[deterministic] result == testv(ref(self), pos(n))     // the node test of a step is a function of the position
 //@ func (*ancestorQuery).Test
-//@   props C15
+//@   props C15 C03
 //@   requires[@C15] n != nil
+//@   ensures[is-step-test@C03] result == predv(a.Predicate, pos(n))     // what position()/last() count with is the node test of the step itself
 //@ func (*attributeQuery).Test
-//@   props C15
+//@   props C15 C03
 //@   requires[@C15] n != nil
+//@   ensures[is-step-test@C03] result == predv(a.Predicate, pos(n))     // what position()/last() count with is the node test of the step itself
 //@ func (*childQuery).Test
-//@   props C15
+//@   props C15 C03
 //@   requires[@C15] n != nil
+//@   ensures[is-step-test@C03] result == predv(c.Predicate, pos(n))     // what position()/last() count with is the node test of the step itself
 //@ func (*cachedChildQuery).Test
-//@   props C15
+//@   props C15 C03
 //@   requires[@C15] n != nil
+//@   ensures[is-step-test@C03] result == predv(c.Predicate, pos(n))     // what position()/last() count with is the node test of the step itself
 //@ func (*descendantQuery).Test
-//@   props C15
+//@   props C15 C03
 //@   requires[@C15] n != nil
+//@   ensures[is-step-test@C03] result == predv(d.Predicate, pos(n))     // what position()/last() count with is the node test of the step itself
 //@ func (*followingQuery).Test
-//@   props C15
+//@   props C15 C03
 //@   requires[@C15] n != nil
+//@   ensures[is-step-test@C03] result == predv(f.Predicate, pos(n))     // what position()/last() count with is the node test of the step itself
 //@ func (*precedingQuery).Test
-//@   props C15
+//@   props C15 C03
 //@   requires[@C15] n != nil
+//@   ensures[is-step-test@C03] result == predv(p.Predicate, pos(n))     // what position()/last() count with is the node test of the step itself
 //@ func (*parentQuery).Test
-//@   props C15
+//@   props C15 C03
 //@   requires[@C15] n != nil
+//@   ensures[is-step-test@C03] result == predv(p.Predicate, pos(n))     // what position()/last() count with is the node test of the step itself
 //@ func (*selfQuery).Test
-//@   props C15
+//@   props C15 C03
 //@   requires[@C15] n != nil
+//@   ensures[is-step-test@C03] result == predv(s.Predicate, pos(n))     // what position()/last() count with is the node test of the step itself
 
 // ---------------------------------------------------------------------------
 // The builder establishes the well-formedness the evaluation phase relies on.
@@ -1300,7 +1312,8 @@ package xpath
 //@ define built(q, err) = err == nil ==> q != nil && !is(q, nopQuery)
 
 //@ func (*builder).processNode
-//@   props C15 C06 C17
+//@   props C15 C06 C17 C01
+//@   ensures[pruned-only-on-request@C01] err == nil && (flags & 1) == 0 ==> !is(q, *descendantOverDescendantQuery)
 //@   requires[depth@C06] 0 <= b.parseDepth && b.parseDepth <= 1024
 //@   maypanic
 //@   decreases 1024 - b.parseDepth, 0
@@ -1313,6 +1326,7 @@ package xpath
 //@ define isDesc(q, self) = is(q, *descendantQuery) && as(q, *descendantQuery).Self == self || is(q, *descendantOverDescendantQuery) && as(q, *descendantOverDescendantQuery).MatchSelf == self
 //@ func (*builder).processAxis
 //@   props C15 C06 C17 C01 C12
+//@   ensures[pruned-only-on-request@C01] result1 == nil && (flags & 1) == 0 ==> !is(result0, *descendantOverDescendantQuery)
 //@   ensures[ancestor@C01] result1 == nil && root.AxisType == "ancestor" ==> is(result0, *ancestorQuery) && !as(result0, *ancestorQuery).Self && as(result0, *ancestorQuery).Predicate == predicate
 //@   ensures[ancestor-or-self@C01] result1 == nil && root.AxisType == "ancestor-or-self" ==> is(result0, *ancestorQuery) && as(result0, *ancestorQuery).Self && as(result0, *ancestorQuery).Predicate == predicate
 //@   ensures[attribute@C01] result1 == nil && root.AxisType == "attribute" ==> is(result0, *attributeQuery) && as(result0, *attributeQuery).Predicate == predicate
@@ -1334,7 +1348,8 @@ package xpath
 //@   ensures[wf@C15] built(result0, result1)
 //@   ensures[known-axis@C17] result1 == nil ==> axisKnown(root.AxisType)
 //@ func (*builder).processFilter
-//@   props C15 C06 C17
+//@   props C15 C06 C17 C01
+//@   ensures[never-pruned@C01] result1 == nil ==> !is(result0, *descendantOverDescendantQuery)
 //@   requires[depth@C06] 0 <= b.parseDepth && b.parseDepth <= 1024
 //@   maypanic
 //@   decreases 1024 - b.parseDepth, 1
@@ -1343,7 +1358,8 @@ package xpath
 //@   requires root != nil
 //@   ensures[wf@C15] built(result0, result1)
 //@ func (*builder).processFunction
-//@   props C15 C06 C17 C16
+//@   props C15 C06 C17 C16 C01
+//@   ensures[never-pruned@C01] result1 == nil ==> !is(result0, *descendantOverDescendantQuery)
 //@   requires[depth@C06] 0 <= b.parseDepth && b.parseDepth <= 1024
 //@   maypanic
 //@   decreases 1024 - b.parseDepth, 1
@@ -1358,7 +1374,8 @@ package xpath
 //@   ensures[arity@C17] result1 == nil ==> len(root.Args) >= minArgs(root.FuncName)
 //@   ensures[constant-pattern@C16] result1 == nil && (root.FuncName == "matches" || root.FuncName == "replace") && bound(arg2, 0) && is(arg2, *constantQuery) && is(as(arg2, *constantQuery).Val, string) ==> loadok(RegexpCache, box(as(as(arg2, *constantQuery).Val, string)))
 //@ func (*builder).processOperator
-//@   props C15 C06 C17 C08 C07
+//@   props C15 C06 C17 C08 C07 C01
+//@   ensures[never-pruned@C01] result1 == nil ==> !is(result0, *descendantOverDescendantQuery)
 //@   ensures[plus@C08] result1 == nil && root.Op == "+" ==> is(result0, *numericQuery) && fn(as(result0, *numericQuery).Do) == fnid("plusFunc")
 //@   ensures[minus@C08] result1 == nil && root.Op == "-" ==> is(result0, *numericQuery) && fn(as(result0, *numericQuery).Do) == fnid("minusFunc")
 //@   ensures[mul@C08] result1 == nil && root.Op == "*" ==> is(result0, *numericQuery) && fn(as(result0, *numericQuery).Do) == fnid("mulFunc")
